@@ -110,7 +110,7 @@ func controlsC16(cp *Prog, r *Report) {
 		ruleGenReaders(cp, cr, "R-GEN", func(f *ssa.Function) bool {
 			return fnPkg(f) != nil && fnPkg(f).Path() == "ctl/des"
 		}, nil, 4)
-	}, "(*des.entry).readBad", "des.stringBad", "des.stampCallerBad", "des.docWrapBad", "des.signBad", "des.fillBad", "des.rowKO", "des.reloadBad", "(des.kern2).joinBad")
+	}, "(*des.entry).readBad", "des.stringBad", "des.stampCallerBad", "des.docWrapBad", "des.signBad", "des.fillBad", "des.rowKO", "des.reloadBad", "(des.kern2).joinBad", "des.constPhiBad")
 	expectControl(r, "R-LAYOUT", func(cr *Report) {
 		ruleLayout(cp, cr, "lay", []layoutPair{{"serializeGood", "deserializeGood"}, {"serializeSwap", "deserializeSwap"}, {"serializeWidth", "deserializeWidth"},
 			{"serializeStride", "deserializeStride"}, {"serializeNested", "deserializeNested"}}, nil, 5)
